@@ -88,6 +88,14 @@ def check_send_data(ctx, cls, func):
     if not sends and not sendalls:
         raise AnalysisError(f"{q}: no socket.send call found - unknown send idiom")
     cfg = cfg_of(fn)
+    # the wait before a write asks select for *writability* of this socket and reads the writable list of the answer
+    for node in walk_no_nested(fn):
+        if isinstance(node, ast.Subscript) and isinstance(node.value, ast.Call) and call_name(node.value) == "select.select" and len(node.value.args) >= 2:
+            sel = node.value
+            wset = sel.args[1]
+            ok = isinstance(wset, (ast.List, ast.Tuple)) and any("_sock" in norm(e) for e in wset.elts) and rules.literal(fn, node.slice) == (True, 1)
+            ctx.ob("C10.P1", q, ok, "the send loop waits until the socket is writable" if ok else
+                   f"`{norm(node)[:90]}` does not wait for writability of the socket (write set / element 1 of select's answer): the loop spins for ever or writes into a full buffer", key="waits-writable", where=func.where)
     for S in sends:
         key = norm(S)
         stmt = next((n for n in cfg.real_nodes() if S in n.calls), None)
